@@ -64,6 +64,23 @@ where
     }
 }
 
+#[cfg(feature = "verif-hooks")]
+impl Token {
+    pub(crate) fn verif_index(&self) -> usize {
+        self.0.map(|n| n.get()).unwrap_or(0)
+    }
+}
+
+#[cfg(feature = "verif-hooks")]
+impl<K: fmt::Debug> TokenMap<K> {
+    pub(crate) fn verif_entries(&self) -> Vec<(String, usize)> {
+        self.map
+            .iter()
+            .map(|(k, t)| (format!("{k:?}"), t.verif_index()))
+            .collect()
+    }
+}
+
 /// Pool key which is used to identify a connection - using scheme
 /// and authority.
 #[derive(Debug, Clone, Hash, PartialEq, Eq)]
